@@ -286,6 +286,13 @@ func init() {
 	}
 	externals["(*regexp.Regexp).MatchString"] = func(fr *frame, a []value) value {
 		i := fr.i
+		if nre := i.nativeRegexps[a[0].(*value)]; nre != nil {
+			src, ok := concreteString(a[1])
+			if !ok {
+				i.abortAt(fr, abortUnsupported, "symbolic input to a regexp outside the stub's fragment: "+nre.String())
+			}
+			return nre.MatchString(src)
+		}
 		c := i.regexps[a[0].(*value)]
 		if c == nil {
 			i.abort(abortUnsupported, "regexp value not created by MustCompile stub")
